@@ -21,7 +21,8 @@ such places without using any of the project's naming functions:
               ``required`` list (scope ``required``, decl ``element``: the only trace that a schema
               built from Python dicts can show), plus ``json_keys`` for counting.
 * xsd         duplicate ``name`` among same-tag children of the root, simpleType/complexType symbol
-              space, duplicate ``xs:element`` names inside a sequence / choice / all.
+              space, duplicate ``xs:element`` names inside a sequence / choice / all, plus
+              ``xsd_names`` for counting.
 
 Duplicate rule (brace languages): funcs collide on equal keys only (overloading), a bodiless
 prototype / overload signature never collides with an implementation of the same key; non-funcs
@@ -607,6 +608,17 @@ def json_keys(out_dir: pathlib.Path) -> Dict[str, Any]:
 
 def _local(tag: Any) -> str:
     return tag.rsplit("}", 1)[-1] if isinstance(tag, str) else ""
+
+
+def xsd_names(out_dir: pathlib.Path) -> Dict[str, List[str]]:
+    """{local tag of a root child: [its ``name`` attributes, document order, with multiplicity]}"""
+    root = ET.fromstring((pathlib.Path(out_dir) / "schema.xsd").read_text(encoding="utf-8"))
+    res: Dict[str, List[str]] = {}
+    for ch in root:
+        tag, name = _local(ch.tag), ch.get("name")
+        if name is not None and tag:
+            res.setdefault(tag, []).append(name)
+    return res
 
 
 def _scan_xsd(text: str) -> List[_Scope]:
